@@ -448,7 +448,7 @@ pub fn project(pid: &str, arch: &str, out: &str) -> String {
         "C11" => res,
         "C16" => {
             if arch == "a64" {
-                format!("{} lr={}", if class == "frame" { res } else { String::new() }, field("lr="))
+                format!("{} lr={} mask={}", if class == "frame" { res } else { String::new() }, field("lr="), field("mask="))
             } else {
                 String::new()
             }
